@@ -71,24 +71,27 @@ def coq_makefile():
 
 
 def regen_pins():
+    """regenerate, from /repo's current text, everything the proofs are tied to: source pins, the translated Gallina, and the
+    Examples that validate the trusted restatements of regex / regex-syntax / rhai against the REAL crates. Every tool runs even
+    when an earlier one fails; failures are raised together at the end (tools/check turns them into a broken obligation)."""
+    failures = []
     with build_lock():
-        rc, out, _ = sh([sys.executable, os.path.join(VERIF, "tools", "pins.py"), os.path.join(COQ, "Pins.v")])
-        if rc == 0:
-            # the translated parts of the model (src/effector.rs -> Gen/EffectorGen.v; four string functions -> Gen/StrFnGen.v)
-            rc, out, _ = sh([sys.executable, os.path.join(VERIF, "tools", "rs2coq.py"), os.path.join(COQ, "Gen", "EffectorGen.v")])
-        if rc == 0:
-            # Gen/Regex.v (trusted restatement of the regex crate) is re-validated against the real crate's answers
-            rc, out, _ = sh([sys.executable, os.path.join(VERIF, "tools", "rx_crate_examples.py")], timeout=1200)
-        if rc == 0:
-            # Gen/RegexSyntax.v (trusted restatement of the crate's PARSER) and the Captures / closure-replacer / HashMap
-            # restatements of Gen/FmapRt.v, likewise
-            rc, out, _ = sh([sys.executable, os.path.join(VERIF, "tools", "rx_syntax_examples.py")], timeout=1800)
-        if rc == 0:
-            # Model/Expr.v (hand model of the rhai matcher fragment: expr, eval, print_expr) is re-validated against the
-            # real rhai engine, configured as src/enforcer.rs configures it (coq/Gen/RhaiExamples.v)
-            rc, out, _ = sh([sys.executable, os.path.join(VERIF, "tools", "rhai_examples.py")], timeout=1800)
-    if rc != 0:
-        raise RuntimeError("pins.py failed: " + out)
+        for name, cmd, to in [
+                ("tools/pins.py", [sys.executable, os.path.join(VERIF, "tools", "pins.py"), os.path.join(COQ, "Pins.v")], 3600),
+                # the translated parts of the model (src/*.rs -> Gen/*Gen.v)
+                ("tools/rs2coq.py", [sys.executable, os.path.join(VERIF, "tools", "rs2coq.py"), os.path.join(COQ, "Gen", "EffectorGen.v")], 3600),
+                # Gen/Regex.v (trusted restatement of the regex crate) is re-validated against the real crate's answers
+                ("tools/rx_crate_examples.py", [sys.executable, os.path.join(VERIF, "tools", "rx_crate_examples.py")], 1200),
+                # Gen/RegexSyntax.v (the crate's PARSER) and the Captures / closure-replacer / HashMap restatements of Gen/FmapRt.v
+                ("tools/rx_syntax_examples.py", [sys.executable, os.path.join(VERIF, "tools", "rx_syntax_examples.py")], 1800),
+                # Model/Expr.v (hand model of the rhai matcher fragment) against the real rhai engine configured as
+                # src/enforcer.rs configures it (coq/Gen/RhaiExamples.v)
+                ("tools/rhai_examples.py", [sys.executable, os.path.join(VERIF, "tools", "rhai_examples.py")], 1800)]:
+            rc, out, _ = sh(cmd, timeout=to)
+            if rc != 0:
+                failures.append("%s failed (exit %d):\n%s" % (name, rc, out[-1500:]))
+    if failures:
+        raise RuntimeError("\n".join(failures))
 
 
 class build_lock:
